@@ -16,7 +16,7 @@ BUDGET = {"quick": 1400, "thorough": 40000}
 REQUIRED = ["feature:patch", "feature:zone", "feature:project_side", "feature:project_edge", "feature:project_corner",
             "feature:merge", "feature:default_patch", "feature:modify_patch", "feature:settings", "feature:delete",
             "feature:vtk", "feature:shape", "feature:graded", "judged:hex-entry", "judged:patch-quad", "judged:projected-face",
-            "judged:vtk-cell", "judged:geometry-entry", "kind:box", "kind:extrude", "kind:revolve", "kind:loft", "kind:taper", "judged:edgeGrading-slot", "feature:pre-history", "feature:delete-after-clear"]
+            "judged:vtk-cell", "judged:geometry-entry", "kind:box", "kind:extrude", "kind:revolve", "kind:loft", "kind:taper", "judged:edgeGrading-slot", "feature:pre-history", "feature:delete-after-clear", "feature:far-origin-thin-gap"]
 MIN_KEYS = 40
 RULE = (
     "random programs: a touching lattice assembly of lofts (24 orientations) + 0-3 disjoint Box / Extrude / Revolve + "
@@ -140,6 +140,19 @@ def gen_case(ctx):
             op["graded"] = {str(a): [op["counts"][a], rng.choice([0.8, 1.1, 1.25])]}
         rand_features(rng, op, labels)
         ops.append(op)
+    # far from the origin: two boxes separated by a thin unmeshed slit - distinct points must stay distinct vertices
+    if rng.random() < 0.25:
+        far = np.array([rng.choice([-2000.0, 1500.0, 2500.0]), rng.choice([0.0, 1800.0]), rng.uniform(-5, 5)])
+        gap = rng.choice([0.01, 0.002, 1e-4])
+        for k2, x0 in enumerate((0.0, 1.0 + gap)):
+            lo, hi = far + np.array([x0, 0.0, 0.0]), far + np.array([x0 + 1.0, 1.0, 1.0])
+            op = {"kind": "box", "counts": [2, 2, 2], "graded": {}, "preserved": {}, "args": [list(lo), list(hi)],
+                  "pts": [[(hi if c[i] else lo)[i] for i in range(3)] for c in hexconv.CORNER]}
+            rand_features(rng, op, labels)
+            ops.append(op)
+        thin_gap = True
+    else:
+        thin_gap = False
     shape = None
     if rng.random() < 0.3:
         o = [-40.0, rng.uniform(-3, 3), rng.uniform(-3, 3)]
@@ -163,7 +176,7 @@ def gen_case(ctx):
         settings["verbose"] = "true"
     return {"ops": ops, "shape": shape, "deleted": deleted, "merges": merges, "geometry": geometry,
             "default": rng.choice([None, None, ["defPatch", "wall"], ["rest", "patch"]]), "modify": modify,
-            "settings": settings, "vtk": rng.random() < 0.5, "delete_shape_op": rng.random() < 0.3,
+            "settings": settings, "vtk": rng.random() < 0.5, "thin_gap": thin_gap, "delete_shape_op": rng.random() < 0.3,
             "pre_history": rng.choice([None, None, "assemble", "clear", "clear", "backport"]), "late_delete": rng.random() < 0.6}
 
 
@@ -559,7 +572,8 @@ def _features(case):
         if op["preserved"]:
             f.add("edge-graded")
     for k, name in (("merges", "merge"), ("default", "default_patch"), ("modify", "modify_patch"), ("settings", "settings"),
-                    ("deleted", "delete"), ("vtk", "vtk"), ("shape", "shape"), ("geometry", "geometry"), ("pre_history", "pre-history")):
+                    ("deleted", "delete"), ("vtk", "vtk"), ("shape", "shape"), ("geometry", "geometry"), ("pre_history", "pre-history"),
+                    ("thin_gap", "far-origin-thin-gap")):
         if case.get(k):
             f.add(name)
     return f
